@@ -19,7 +19,8 @@ ASSUME_COMMON = [
 
 def to_replay(s):
     return {"sid": s.sid, "kinds": s.kinds, "defs": s.defs, "hist": s.hist, "pre": s.pre, "f1": s.f1, "fp": s.fp,
-            "unw": s.unw, "fuel": s.fuel, "npids": s.npids, "nuids": s.nuids, "sched": s.sched, "progs": s.progs, "meta": s.meta}
+            "unw": s.unw, "fuel": s.fuel, "npids": s.npids, "nuids": s.nuids, "sched": s.sched, "progs": s.progs, "meta": s.meta,
+            "yr": getattr(s, "yr", False), "ra": getattr(s, "ra", False)}
 
 
 def tup(x):
@@ -35,7 +36,7 @@ def from_replay(j):
     sched = tuple(tuple(x) if isinstance(x, list) and i == 2 else x for i, x in enumerate(sc["sched"])) if sc.get("sched") else None
     return [Scen(sid=sc["sid"], kinds=sc["kinds"], defs=defs, hist=hist, pre=pre, f1=sc["f1"],
                  fp=[tuple(x) for x in sc["fp"]], fuel=sc["fuel"], npids=sc["npids"], nuids=sc["nuids"],
-                 sched=sched, progs=progs, unw=sc.get("unw", []), meta=sc.get("meta", {}))]
+                 sched=sched, progs=progs, unw=sc.get("unw", []), meta=sc.get("meta", {}), yr=sc.get("yr", False), ra=sc.get("ra", False))]
 
 
 def obs_list(r):
